@@ -4,10 +4,9 @@ counted identifier reads in the order in which the ScopeVisitor meets them (eage
 statement first, closures afterwards).  It is the bridge between the two ends:
 
 * `Scope/CoreProof.lean` proves that the scope-stack machine of `Scope/Core.lean` produces exactly
-  these lists (`hdr := true`: closures in a `for` header are entered with the loop variables in scope,
-  which is what the visitor does);
+  these lists;
 * `Scope/SpecProof.lean` proves that `Spec.resolve` (source order, `Out` accumulator) produces a
-  permutation of them (`hdr := false`: Lua's rule).
+  permutation of them.
 
 Environments are `Spec.Env` itself, built with the same constructors as `Spec.declare`.
 -/
@@ -84,72 +83,72 @@ end
 
 /-! ### closures inside expressions, statements, blocks -/
 mutual
-def dE (hdr inF : Bool) (env : Env) : Expr → List Ans
-  | .paren _ e => dE hdr inF env e
-  | .un _ _ e => dE hdr inF env e
-  | .bin _ l _ r => dE hdr inF env l ++ dE hdr inF env r
-  | .func _ _ body => sBody hdr env none body
-  | .call c => dC hdr inF env c
-  | .tbl _ fs => dFs hdr inF env fs
-  | .var v => dV hdr inF env v
+def dE (inF : Bool) (env : Env) : Expr → List Ans
+  | .paren _ e => dE inF env e
+  | .un _ _ e => dE inF env e
+  | .bin _ l _ r => dE inF env l ++ dE inF env r
+  | .func _ _ body => sBody env none body
+  | .call c => dC inF env c
+  | .tbl _ fs => dFs inF env fs
+  | .var v => dV inF env v
   | _ => []
-def dEs (hdr inF : Bool) (env : Env) : ExprList → List Ans
+def dEs (inF : Bool) (env : Env) : ExprList → List Ans
   | .nil => []
-  | .cons e rest => dE hdr inF env e ++ dEs hdr inF env rest
-def dC (hdr inF : Bool) (env : Env) : FCall → List Ans
-  | .mk _ p ss => dP hdr inF env p ++ dSs hdr inF env ss
-def dP (hdr inF : Bool) (env : Env) : Prefix → List Ans
+  | .cons e rest => dE inF env e ++ dEs inF env rest
+def dC (inF : Bool) (env : Env) : FCall → List Ans
+  | .mk _ p ss => dP inF env p ++ dSs inF env ss
+def dP (inF : Bool) (env : Env) : Prefix → List Ans
   | .name _ => []
-  | .expr e => dE hdr inF env e
-def dSs (hdr inF : Bool) (env : Env) : SuffixList → List Ans
+  | .expr e => dE inF env e
+def dSs (inF : Bool) (env : Env) : SuffixList → List Ans
   | .nil => []
-  | .cons s rest => dS hdr inF env s ++ dSs hdr inF env rest
-def dS (hdr inF : Bool) (env : Env) : Suffix → List Ans
+  | .cons s rest => dS inF env s ++ dSs inF env rest
+def dS (inF : Bool) (env : Env) : Suffix → List Ans
   | .dot _ _ => []
-  | .idx _ e => dE hdr inF env e
-  | .args _ a => dA hdr inF env a
-  | .meth _ _ a => dA hdr inF env a
+  | .idx _ e => dE inF env e
+  | .args _ a => dA inF env a
+  | .meth _ _ a => dA inF env a
   | .unsupported _ => []
-def dA (hdr inF : Bool) (env : Env) : Args → List Ans
-  | .parens _ es => dEs hdr inF env es
-  | .tbl _ fs => dFs hdr inF env fs
+def dA (inF : Bool) (env : Env) : Args → List Ans
+  | .parens _ es => dEs inF env es
+  | .tbl _ fs => dFs inF env fs
   | .str _ _ _ => []
-def dFs (hdr inF : Bool) (env : Env) : FieldList → List Ans
+def dFs (inF : Bool) (env : Env) : FieldList → List Ans
   | .nil => []
   | .cons f rest =>
     (match f with
-      | .exprKey _ k v => dE hdr inF env k ++ dE hdr inF env v
-      | .nameKey _ _ v => dE hdr inF env v
-      | .noKey v => dE hdr inF env v
-      | .unsupported _ => []) ++ dFs hdr inF env rest
-def dV (hdr inF : Bool) (env : Env) : Var → List Ans
+      | .exprKey _ k v => dE inF env k ++ dE inF env v
+      | .nameKey _ _ v => dE inF env v
+      | .noKey v => dE inF env v
+      | .unsupported _ => []) ++ dFs inF env rest
+def dV (inF : Bool) (env : Env) : Var → List Ans
   | .name _ => []
-  | .expr _ p ss => dP hdr inF env p ++ dSs hdr inF env ss
-def dVs (hdr inF : Bool) (env : Env) : VarList → List Ans
+  | .expr _ p ss => dP inF env p ++ dSs inF env ss
+def dVs (inF : Bool) (env : Env) : VarList → List Ans
   | .nil => []
-  | .cons v rest => dV hdr inF env v ++ dVs hdr inF env rest
+  | .cons v rest => dV inF env v ++ dVs inF env rest
 /-- suffixes of a call statement: each is read, then entered -/
-def sSs (hdr inF : Bool) (env : Env) : SuffixList → List Ans
+def sSs (inF : Bool) (env : Env) : SuffixList → List Ans
   | .nil => []
-  | .cons s rest => eS inF env s ++ dS hdr inF env s ++ sSs hdr inF env rest
-def sBody (hdr : Bool) (env : Env) (selfTok : Option Tok) : FuncBody → List Ans
+  | .cons s rest => eS inF env s ++ dS inF env s ++ sSs inF env rest
+def sBody (env : Env) (selfTok : Option Tok) : FuncBody → List Ans
   | .mk _ params b =>
     let env := match selfTok with
       | some m => bindTok env m "self" .self_
       | none => env
     let env : Env := if hasDots params then env else ("...", none) :: env
-    (sBlock hdr true (bindParams env params) b).1
-def sBlock (hdr inF : Bool) (env : Env) : Block → List Ans × Env
+    (sBlock true (bindParams env params) b).1
+def sBlock (inF : Bool) (env : Env) : Block → List Ans × Env
   | .mk _ stmts last =>
-    let r := sStmts hdr inF env stmts
+    let r := sStmts inF env stmts
     match last with
-    | .ret _ es => (r.1 ++ eEs inF r.2 es ++ dEs hdr inF r.2 es, r.2)
+    | .ret _ es => (r.1 ++ eEs inF r.2 es ++ dEs inF r.2 es, r.2)
     | _ => r
-def sStmts (hdr inF : Bool) (env : Env) : StmtList → List Ans × Env
+def sStmts (inF : Bool) (env : Env) : StmtList → List Ans × Env
   | .nil => ([], env)
   | .cons s rest =>
-    let r := sStmt hdr inF env s
-    let r' := sStmts hdr inF r.2 rest
+    let r := sStmt inF env s
+    let r' := sStmts inF r.2 rest
     (r.1 ++ r'.1, r'.2)
 /-- reads made while the targets are processed: per target its paired value, then the target -/
 def sTargets (inF : Bool) (env : Env) : VarList → ExprList → List Ans
@@ -162,47 +161,45 @@ def sTargets (inF : Bool) (env : Env) : VarList → ExprList → List Ans
       | .name _ => []
       | .expr _ _ _ => eV inF env v) ++
     sTargets inF env rest (match es with | .cons _ es' => es' | .nil => .nil)
-def sElifs (hdr inF : Bool) (env : Env) : ElseIfList → List Ans
+def sElifs (inF : Bool) (env : Env) : ElseIfList → List Ans
   | .nil => []
   | .cons (.mk _ c b) rest =>
-    eE inF env c ++ dE hdr inF env c ++ (sBlock hdr inF env b).1 ++ sElifs hdr inF env rest
-def sStmt (hdr inF : Bool) (env : Env) : Stmt → List Ans × Env
-  | .assign _ vars es => (sTargets inF env vars es ++ dVs hdr inF env vars ++ dEs hdr inF env es, env)
-  | .localAssign _ names es => (eEs inF env es ++ dEs hdr inF env es, bindAll env .local_ names)
-  | .call (.mk _ p ss) => (eP inF env p ++ dP hdr inF env p ++ sSs hdr inF env ss, env)
-  | .do_ _ b => ((sBlock hdr inF env b).1, env)
-  | .while_ _ c b => (eE inF env c ++ dE hdr inF env c ++ (sBlock hdr inF env b).1, env)
+    eE inF env c ++ dE inF env c ++ (sBlock inF env b).1 ++ sElifs inF env rest
+def sStmt (inF : Bool) (env : Env) : Stmt → List Ans × Env
+  | .assign _ vars es => (sTargets inF env vars es ++ dVs inF env vars ++ dEs inF env es, env)
+  | .localAssign _ names es => (eEs inF env es ++ dEs inF env es, bindAll env .local_ names)
+  | .call (.mk _ p ss) => (eP inF env p ++ dP inF env p ++ sSs inF env ss, env)
+  | .do_ _ b => ((sBlock inF env b).1, env)
+  | .while_ _ c b => (eE inF env c ++ dE inF env c ++ (sBlock inF env b).1, env)
   | .repeat_ _ b c =>
-    let r := sBlock hdr inF env b
-    (r.1 ++ dE hdr inF r.2 c ++ eE inF r.2 c, env)
+    let r := sBlock inF env b
+    (r.1 ++ dE inF r.2 c ++ eE inF r.2 c, env)
   | .if_ _ c b elifs els =>
-    (eE inF env c ++ dE hdr inF env c ++ (sBlock hdr inF env b).1 ++ sElifs hdr inF env elifs ++
+    (eE inF env c ++ dE inF env c ++ (sBlock inF env b).1 ++ sElifs inF env elifs ++
       (match els with
-        | .some eb => (sBlock hdr inF env eb).1
+        | .some eb => (sBlock inF env eb).1
         | .none => []), env)
   | .numFor _ v _ start stop step b =>
     let envIn := bindTok env v v.text .loopVar
-    let envH := if hdr then envIn else env
     (eE inF env start ++ eE inF env stop ++ (match step with | .some e => eE inF env e | .none => []) ++
-      dE hdr inF envH start ++ dE hdr inF envH stop ++ (match step with | .some e => dE hdr inF envH e | .none => []) ++
-      (sBlock hdr inF envIn b).1, env)
+      dE inF env start ++ dE inF env stop ++ (match step with | .some e => dE inF env e | .none => []) ++
+      (sBlock inF envIn b).1, env)
   | .genFor _ names es b =>
     let envIn := bindAll env .loopVar names
-    let envH := if hdr then envIn else env
-    (eEs inF env es ++ dEs hdr inF envH es ++ (sBlock hdr inF envIn b).1, env)
+    (eEs inF env es ++ dEs inF env es ++ (sBlock inF envIn b).1, env)
   | .func _ name body =>
     match name.names with
     | [] => ([], env)
     | base :: more =>
       ((if (!more.isEmpty || name.method.isSome) = true then sRead inF env base else []) ++
-        sBody hdr env name.method body, env)
+        sBody env name.method body, env)
   | .localFunc _ name body =>
     let env' := bindTok env name name.text .localFunc
-    (sBody hdr env' none body, env')
+    (sBody env' none body, env')
   | .unsupported _ => ([], env)
 end
 
 /-- the whole chunk -/
-def chunk (hdr : Bool) (b : Block) : List Ans := (sBlock hdr false [] b).1
+def chunk (b : Block) : List Ans := (sBlock false [] b).1
 
 end Selene.Scope.Ordered
